@@ -397,6 +397,34 @@ func Chmod(name string, mode os.FileMode, site string) error {
 	return os.Chmod(name, mode)
 }
 
+func Truncate(name string, size int64, site string) error {
+	if err := pre("truncate", name, "fs-error-write", site); err != nil {
+		return deadOK(err)
+	}
+	return os.Truncate(name, size)
+}
+
+func Chtimes(name string, atime, mtime time.Time, site string) error {
+	if err := pre("chtimes", name, "fs-error-write", site); err != nil {
+		return deadOK(err)
+	}
+	return os.Chtimes(name, atime, mtime)
+}
+
+func Chown(name string, uid, gid int, site string) error {
+	if err := pre("chown", name, "fs-error-write", site); err != nil {
+		return deadOK(err)
+	}
+	return os.Chown(name, uid, gid)
+}
+
+func Lchown(name string, uid, gid int, site string) error {
+	if err := pre("chown", name, "fs-error-write", site); err != nil {
+		return deadOK(err)
+	}
+	return os.Lchown(name, uid, gid)
+}
+
 func Getwd(site string) (string, error) {
 	if p := simrt.CurProc(); p != nil {
 		if pd := PD(p); pd.Cwd != "" {
@@ -530,6 +558,13 @@ func FileChmod(f *os.File, mode os.FileMode, site string) error {
 	return f.Chmod(mode)
 }
 
+func FileTruncate(f *os.File, size int64, site string) error {
+	if err := pre("ftruncate", fname(f), "fs-error-write", site); err != nil {
+		return err
+	}
+	return f.Truncate(size)
+}
+
 func FileSync(f *os.File, site string) error {
 	if err := pre("fsync", fname(f), "fs-error-write", site); err != nil {
 		return err
@@ -626,6 +661,30 @@ func Walk(root string, fn filepath.WalkFunc, site string) error {
 		return err
 	}
 	return filepath.Walk(root, fn)
+}
+
+// WalkDir is filepath.WalkDir behind one sim point.
+func WalkDir(root string, fn fs.WalkDirFunc, site string) error {
+	if err := pre("walk", root, "fs-error-read", site); err != nil {
+		return err
+	}
+	return filepath.WalkDir(root, fn)
+}
+
+// CopyN / CopyBuffer: the same fault and crash semantics as Copy.
+func CopyN(dst io.Writer, src io.Reader, n int64, site string) (int64, error) {
+	written, err := Copy(dst, io.LimitReader(src, n), site)
+	if written == n {
+		return n, nil
+	}
+	if written < n && err == nil {
+		err = io.EOF
+	}
+	return written, err
+}
+
+func CopyBuffer(dst io.Writer, src io.Reader, buf []byte, site string) (int64, error) {
+	return Copy(dst, src, site)
 }
 
 // ---------------------------------------------------------------- signals
